@@ -61,7 +61,15 @@ fn char_positions(s: &str) -> Vec<usize> { s.char_indices().map(|(i, _)| i).chai
 pub fn descriptor_string(rng: &mut Rng) -> (String, &'static str) {
     let base = print(&structure(rng));
     match rng.below(16) {
-        0..=2 => (base, "valid"),
+        0 | 1 => (base, "valid"),
+        2 if rng.chance(1, 4) => { // many parameters: slot totals around the 255 of JVMS 4.3.3 (a validity rule on top of the grammar: the string is in the grammar)
+            let want = *rng.pick(&[127usize, 128, 253, 254, 255, 256, 257, 300]);
+            let mut s = String::from("("); let mut slots = 0;
+            while slots < want { match rng.below(6) { 0 if slots + 2 <= want => { s.push(if rng.bool() { 'J' } else { 'D' }); slots += 2; } 1 => { s.push_str("[J"); slots += 1; } 2 => { s.push_str(&format!("L{};", class_name(rng))); slots += 1; } _ => { s.push(*rng.pick(&['I', 'Z', 'B', 'C', 'S', 'F'])); slots += 1; } } }
+            s.push(')'); s.push_str(*rng.pick(&["V", "I", "J", "[D"]));
+            (s, "many_parameters")
+        }
+        2 => (base, "valid"),
         14 | 15 => { // one tag / punctuation character replaced by a code point with the same low byte
             let pos: Vec<(usize, char)> = base.char_indices().filter(|(_, c)| ALIAS_TAGS.contains(c)).collect();
             if pos.is_empty() { return (base, "valid"); }
